@@ -11,7 +11,8 @@
               option shapes + netlists + a malformed stream + value_parser + Opts: what the real
               code parsed and printed is compared with the hand model INSIDE Coq (cases_k.v)
   search      Circuit(str(Circuit(x))) structural equality and idempotence of printing, on the real
-              code only (independent of the model)
+              code only (independent of the model); on add/remove histories also the naming contract
+              (an anonymous add appends exactly one element, under a name never generated before)
 """
 import json
 import os
@@ -38,14 +39,21 @@ MANIFEST = {
             'type, too many fields, missing node, unknown/duplicate named parameter, value after named parameter); engineering '
             'suffix values; parse_namespace: for every line, parsing inside a namespace (.include file as name) equals parsing without '
             'it and prefixing the namespace to the name and to every node; name_rejoin; for each open finding a *_refuted witness '
-            'that the corresponding hypothesis of parse_print cannot be dropped.  The grammar table and the suffix table are regenerated from lcapy/grammar.py and lcapy/valueparser.py on '
+            'that the corresponding hypothesis of parse_print cannot be dropped; the component namer over arbitrary histories of '
+            'Circuit.add / Circuit.remove (ParserNamer.v): namer_fresh (pigeonhole: the generated name is in neither list the namer '
+            'looks at), namer_least (it is prefix+str(m) for the least free m >= 1; str(m) injective), make_anon_spec, hist_invariant '
+            '(element names pairwise distinct and no generated name handed out twice, also after removals), hist_memory, '
+            'add_anon_appends / add_line_appends (an anonymous component without namespace never replaces one), remove_spec, and the witness '
+            'anon_appends_in_namespace_refuted that the no-namespace condition cannot be dropped.  The grammar table and the suffix table are regenerated from lcapy/grammar.py and lcapy/valueparser.py on '
             'every run (the Coq model parses the grammar text itself) and grammar_ok is decided by vm_compute over the complete '
             'table.  The hand model is compared with the real code inside Coq on an enumeration of the whole grammar on every run, '
             'and a round-trip oracle runs on the real code alone.',
     'note': 'Trusted: Coq kernel/vm_compute; tools/tr_grammar.py (copies four string constants and one dict, plus three source '
-            'guards and the five literal separators of the writer, tied to the model by printer_constants_guard); the hand model '
+            'guards and the five literal separators of the writer, tied to the model by printer_constants_guard; ComponentNamer.name, '
+            '_make_anon_cpt_name and Netlist.remove are compared statement for statement with the text the model mirrors and the '
+            'start index is tied by namer_constants_guard); the hand model '
             'coq/theory/ParserModel.v (now including netlist files, Circuit(filename)/netfile_add and nested .include with the file system as a '
-            'parameter), validated against the real parser/printer on every run (exhaustive in '
+            'parameter, and add/remove histories with the namer memory), validated against the real parser/printer on every run (exhaustive in '
             'grammar rules and optional-argument subsets, sampled in value/name/node/option shapes); component constructors (sympy '
             'parsing of values) are outside the model; relative include paths / cwd lookup are not modelled; ASCII only.  The hypotheses of parse_print (wf_cpt, decidable) '
             'exclude exactly the input shapes listed as known findings; the run reports how many accepted inputs lie inside them and '
@@ -383,6 +391,91 @@ def gen_files(rules, rng, n, root):
     return cases
 
 
+ANON_TYPES = ('W', 'O', 'P', 'A')
+HIST_FIXED = [
+    [['add', 'W 1 2'], ['add', 'R1 2 3'], ['add', 'W 3 4'], ['remove', 'Wanon1'], ['add', 'W 5 6']],
+    [['add', 'a.Wanon1 1 2'], ['add', 'a.W 3 4']],          # the namer compares the relative name with full names
+    [['add', 'Wanon1 1 2'], ['add', 'W 3 4']],
+    [['add', 'R1 1 2'], ['remove', 'R2']],
+    [['add', 'R? 1 2'], ['add', 'R? 2 3'], ['remove', 'Ranon1'], ['add', 'R? 3 4'], ['add', 'Ranon1 4 5']],
+    [['add', '# c'], ['add', 'W 1 2'], ['remove', 'XXanon1'], ['add', '; right'], ['add', 'a.O 1 2'], ['add', 'O 1 2'], ['remove', 'a.Oanon1'], ['add', 'b.O 2 3']],
+    [['add', 'W 1 2'], ['remove', 'Wanon1'], ['remove', 'Wanon1']],
+    [['remove', 'R1']],
+    [['add', 'Wanon2 1 2'], ['add', 'W 2 3'], ['add', 'W 3 4'], ['remove', 'Wanon2'], ['add', 'W 4 5'], ['add', 'W 5 6']],
+]
+
+
+def gen_hist(rules, rng, n):
+    """histories of Circuit.add / Circuit.remove that make the namer work: anonymous W/O/P/A, `X?` names, directives,
+    explicitly written <type>anon<k> names (only before the namer has run, so that no component is ever replaced - replacing
+    is node bookkeeping, property C16), removals of generated and of explicit names, re-adding a removed name.  A small
+    reimplementation of the naming rule is used ONLY to choose removal targets that exist."""
+    simple = [r for r in rules if r[1] in ('R', 'C', 'L', 'V', 'I', 'W', 'O', 'P', 'A', 'E', 'SW', 'D')]
+    cases = [{'hist': h, 'tag': 'hist'} for h in HIST_FIXED]
+    while len(cases) < n:
+        ops = []
+        present = []
+        handed = []
+        uniq = 0
+        removed = []
+
+        def fresh(ty):
+            m = 1
+            while (ty + 'anon%d' % m) in present or (ty + 'anon%d' % m) in handed:
+                m += 1
+            handed.append(ty + 'anon%d' % m)
+            return ty + 'anon%d' % m
+        nexp = rng.choice([0, 0, 1, 2])
+        for k in rng.sample([1, 2, 3], nexp):
+            ty = rng.choice(['W', 'O', 'R', 'XX'])
+            if ty == 'XX':
+                continue
+            nm = '%sanon%d' % (ty, k)
+            if nm not in present:
+                ops.append(['add', '%s %d %d' % (nm, k, k + 1)])
+                present.append(nm)
+        for _ in range(rng.randint(2, 10)):
+            t = rng.random()
+            if t < 0.28 and present:
+                nm = rng.choice(present)
+                ops.append(['remove', nm])
+                present.remove(nm)
+                removed.append(nm)
+                continue
+            if t < 0.33 and removed and removed[-1] not in present and not removed[-1].startswith('XX'):
+                nm = removed[-1]          # re-add a removed name explicitly
+                ty = re.match(r'(?:a\.)?([A-Z]+?)(?:anon|x_|\d)', nm)
+                if ty and ty.group(1) in ('W', 'O', 'R'):
+                    ops.append(['add', '%s 8 9' % nm])
+                    present.append(nm)
+                    continue
+            if t < 0.42:
+                d = rng.choice([x for x in DIRECTIVES if not x.startswith('.')])
+                ops.append(['add', d])
+                present.append(fresh('XX'))
+                continue
+            rule = rng.choice(simple)
+            ty = rule[1]
+            shape = rng.choice(['anon', 'anon', 'bare', 'bare', 'bare', 'nsbare'] if ty in ANON_TYPES else ['anon', 'anon', 'plain'])
+            optl = [p for p in rule[2] if p[1] in ('name', 'value') and p[2]]
+            line = build_line(rule, rng, 'bare' if shape == 'nsbare' else shape, rng.choice(['num', 'num', 'under']),
+                              [rng.choice(SHAPES) for _ in range(3)], rng.randint(0, len(optl)), [], opts=rng.choice(OPTS[:4]))
+            if shape == 'plain':
+                uniq += 1
+                line = ty + str(uniq) + line[len(mk_name(ty, 'plain')):]
+                present.append(ty + str(uniq))
+            elif shape == 'nsbare':
+                line = 'a.' + line
+                present.append('a.' + fresh(ty))
+            else:
+                present.append(fresh(ty))
+            ops.append(['add', line])
+        if rng.random() < 0.1:
+            ops.append(['remove', rng.choice(['R77', 'Wanon9', 'zz'])])
+        cases.append({'hist': ops, 'tag': 'hist'})
+    return cases
+
+
 FUZZ_ALPHABET = 'RRCVW12 {}"=;,.()?#x\tace_'
 
 
@@ -457,7 +550,7 @@ From Coq Require Import List Ascii ZArith.
 From Coq Require String.
 Import String.StringSyntax.
 From Coq Require Import Uint63.
-From LT Require Import ParserStr ParserModel ParserCases.
+From LT Require Import ParserStr ParserModel ParserCases ParserNamer.
 Require Import Gen.ParserGrammarGen.
 Import ListNotations.
 Local Open Scope list_scope.
@@ -493,6 +586,13 @@ def case_term(i, c, r, suffixes):
         if 'error' in r:
             return '(%d%%N, obs_err G %s %d%%nat %s)' % (i, L, r['at'], ERR[r['error']])
         return '(%d%%N, obs_ok G %s %s %s %s)' % (i, L, clist(c_cpt(e) for e in r['elts']), clist(cs(p) for p in r['printed']), cs(r['str']))
+    if 'hist' in c:
+        H = clist('(%s %s)' % ('HAdd' if op == 'add' else 'HRemove', cs(x)) for op, x in c['hist'])
+        if 'error' in r:
+            e = 'HUnknownName' if r['error'] == 'unknown_name' else '(HE %s)' % ERR[r['error']]
+            return '(%d%%N, obs_hist_err G %s %d%%nat %s)' % (i, H, r['at'], e)
+        return '(%d%%N, obs_hist G %s %s %s %s %s)' % (i, H, clist(c_cpt(e) for e in r['elts']), clist(cs(p) for p in r['printed']),
+                                                      cs(r['str']), clist(cs(x) for x in r['gen']))
     if 'file' in c:
         FS = clist('(%s, %s)' % (cs(pth), clist(cs(l) for l in ls)) for pth, ls in c['files'].items())
         if 'error' in r:
@@ -524,7 +624,7 @@ def comparable(c, r):
     """can this observation be put to the model?  constructor failures (sympy rejecting a value, attribute clashes) are
     outside the parser/printer model"""
     if 'error' in r:
-        return r['error'] in ERR
+        return r['error'] in ERR or (r['error'] == 'unknown_name' and 'hist' in c)
     txt = json.dumps(r)
     return ascii_ok(txt) and '"?' not in txt
 
@@ -586,6 +686,40 @@ def oracle_verdict(r):
     return None
 
 
+def hist_verdict(ops, r):
+    """the naming contract on the real code alone: an anonymous add (W/O/P/A without id, `X?`, a directive; no namespace)
+    appends exactly one element whose name was never an element name or a generated name before in this history; any
+    other add appends or keeps the key list; a removal deletes exactly the named key.  None = holds."""
+    keys = r.get('keys')
+    if keys is None:
+        return None
+    ever = set()
+    prev = []
+    for (op, x), cur in zip(ops, keys):
+        if op == 'remove':
+            if cur != [k for k in prev if k != x] or x not in prev:
+                return ('Netlist.remove:wrong-elements', 'remove(%s) left %s from %s' % (x, cur, prev))
+        else:
+            net = x.strip()
+            if net.startswith('...'):
+                net = net[3:].strip()
+            first = re.split(r'[ \t(),;]+', net)[0] if net else ''
+            directive = net == '' or net[0] in '#%*;.'
+            anon = directive or first in ANON_TYPES or first.endswith('?')
+            if anon and '.' not in first:
+                if len(cur) != len(prev) + 1 or cur[:-1] != prev:
+                    return ('ComponentNamer.name:anonymous-add-replaces-component', 'add(%r) changed the elements %s to %s' % (x, prev, cur))
+                if cur[-1] in ever:
+                    return ('ComponentNamer.name:generated-name-reused', 'add(%r) was named %s, a name generated before in this history' % (x, cur[-1]))
+                ever.add(cur[-1])
+            elif anon and len(cur) == len(prev) + 1:
+                ever.add(cur[-1].split('.')[-1])
+            elif not (cur == prev or cur[:-1] == prev):
+                return ('Netlist._cpt_add:wrong-elements', 'add(%r) changed the elements %s to %s' % (x, prev, cur))
+        prev = cur
+    return None
+
+
 def fingerprint(c, r, rules):
     """stable key of a round-trip failure: the mechanism when it is one of the recognised shapes, else the
     component class and the stage"""
@@ -643,7 +777,7 @@ def grammar_obligations():
 def run(tier='quick', replay=None):
     res = core.Result(PID, tier)
     rng = random.Random(core.seed() * 104729 + 6)
-    core.ensure_theory(['ParserStr', 'ParserModel', 'ParserThm', 'ParserRoundTrip', 'ParserValue', 'ParserOpts', 'ParserCases', 'ParserNamespace'])
+    core.ensure_theory(['ParserStr', 'ParserModel', 'ParserThm', 'ParserRoundTrip', 'ParserValue', 'ParserOpts', 'ParserCases', 'ParserNamespace', 'ParserNamer'])
     w = core.Work(PID)
     violations = []
     try:
@@ -671,6 +805,12 @@ def run(tier='quick', replay=None):
         texts = {}
         gen_ok = False
         if g is not None:
+            # the namer / remove source, compared statement for statement with what the model mirrors
+            res.obligations += 1
+            if g.namer_issues:
+                res.failed_obl.append(('namer_source_guard', 'lcapy/componentnamer.py', '; '.join(g.namer_issues)))
+            else:
+                res.discharged += 1
             texts['ParserGrammarGen.v'] = g.coq()
             w.write('ParserGrammarGen.v', texts['ParserGrammarGen.v'])
             ok, out, secs = core.coqc(w.dir, 'ParserGrammarGen.v')
@@ -697,6 +837,11 @@ def run(tier='quick', replay=None):
                 texts['C06_meg.v'] = open(tplm).read()
                 w.write('C06_meg.v', texts['C06_meg.v'])
                 files.append('C06_meg.v')
+            tpln = os.path.join(core.VERIF, 'coq', 'props', 'C06_namer.v.tpl')
+            if os.path.exists(tpln):
+                texts['C06_namer.v'] = open(tpln).read()
+                w.write('C06_namer.v', texts['C06_namer.v'])
+                files.append('C06_namer.v')
             pp = os.path.join(core.VERIF, 'coq', 'props', 'C06.v')
             if os.path.exists(pp):
                 texts['C06.v'] = open(pp).read()
@@ -733,7 +878,9 @@ def run(tier='quick', replay=None):
                     with open(pth, 'w') as f:
                         f.write('\n'.join(ls) + '\n')
             rc.setdefault('tag', 'replay')
-            cases = [rc] if rc.keys() & {'lines', 'vp', 'opts', 'file'} else []
+            if 'roundtrip_hist' in rc:
+                rc['hist'] = rc.pop('roundtrip_hist')
+            cases = [rc] if rc.keys() & {'lines', 'vp', 'opts', 'file', 'hist'} else []
         elif rules:
             cases += gen_enum(rules, rng, tier)
             cases += gen_netlists(rules, rng, 150 if tier == 'quick' else 3000)
@@ -753,6 +900,7 @@ def run(tier='quick', replay=None):
                     res.count('derive_' + str(dr.get('error', 'nonascii')))
             res.extra['derived_netlists'] = nder
             cases += gen_opts(rng, 200 if tier == 'quick' else 4000)
+            cases += gen_hist(rules, rng, 150 if tier == 'quick' else 3000)
         results = core.run_impl('impl_parser.py', cases) if cases else []
         res.programs = len(set(c.get('rule', c['tag']) for c in cases))
         idxs = []
@@ -764,7 +912,7 @@ def run(tier='quick', replay=None):
                 break
             if not comparable(c, r):
                 res.count('outside_model_' + tag)
-                if tag in ('enum', 'shape', 'netlist', 'kw0', 'file'):
+                if tag in ('enum', 'shape', 'netlist', 'kw0', 'file', 'hist'):
                     # the enumeration is built from values every constructor accepts
                     res.disagreements.append({'case': c, 'lcapy': r, 'why': 'the real code raised outside the parser on an enumerated line'})
                 continue
@@ -818,8 +966,9 @@ def run(tier='quick', replay=None):
 
         phase['coq_cases'] = round(time.time() - tph, 1); tph = time.time()
         # 4. round-trip oracle (real code only)
-        oidx = [i for i, c in enumerate(cases) if 'lines' in c or 'file' in c]
+        oidx = [i for i, c in enumerate(cases) if 'lines' in c or 'file' in c or 'hist' in c]
         ocases = [({'roundtrip_file': cases[i]['file'], 'files': cases[i]['files'], 'tag': 'file'} if 'file' in cases[i] else
+                   {'roundtrip_hist': cases[i]['hist'], 'tag': 'hist'} if 'hist' in cases[i] else
                    {'roundtrip': cases[i]['lines'], 'tag': cases[i].get('tag'), 'rule': cases[i].get('rule'), 'spec': cases[i].get('spec', True)})
                   for i in oidx]
         oresults = core.run_impl('impl_parser.py', ocases) if ocases else []
@@ -830,6 +979,12 @@ def run(tier='quick', replay=None):
                 res.obligations += 1
                 break
             v = oracle_verdict(r)
+            if 'roundtrip_hist' in c:
+                hv = hist_verdict(c['roundtrip_hist'], r)
+                if hv is not None:
+                    res.count('oracle_fail')
+                    res.counterexamples.append({'case': c, 'lcapy': r, 'why': hv[1], 'key': hv[0]})
+                    continue
             built_from = c.get('rule') if (c.get('tag') in RULE_TAGS and c.get('spec', True)) else None
             if built_from is not None:
                 # specification = the grammar line itself ("Class: Typename ... keyword ...; comment"): text built from that
@@ -858,12 +1013,13 @@ def run(tier='quick', replay=None):
                     res.disagreements.append({'case': cases[ci], 'lcapy': r, 'why': 'the real round trip fails on an input inside the hypotheses of parse_print'})
         if replay:
             for c, r in zip(cases, results):
-                print('INPUT          :', json.dumps({k: v for k, v in c.items() if k in ('lines', 'vp', 'opts')}))
+                print('INPUT          :', json.dumps({k: v for k, v in c.items() if k in ('lines', 'vp', 'opts', 'hist')}))
                 print('IMPLEMENTATION :', json.dumps(r)[:1500])
                 print('MODEL (Coq)    :', 'differs from the implementation' if res.disagreements else
                       ('agrees with the implementation' if idxs else 'not comparable (outside the model)'))
             for c, r in zip(ocases, oresults):
-                print('ORACLE         :', oracle_verdict(r) or 'round trip holds (or input not accepted)', '|', json.dumps(r)[:1500])
+                hv = hist_verdict(c['roundtrip_hist'], r) if 'roundtrip_hist' in c else None
+                print('ORACLE         :', (hv[1] if hv else None) or oracle_verdict(r) or 'round trip holds (or input not accepted)', '|', json.dumps(r)[:1500])
         # engineering suffixes: every entry of the table and the documented aliases must scale
         if g is not None and (not replay or (cases and 'vp' in cases[0])):
             # the specification here is the SI table itself, not the table read from the source
@@ -880,7 +1036,8 @@ def run(tier='quick', replay=None):
         res.extra['phase_seconds'] = phase
         res.rule = ('cases: every grammar rule x every (positional prefix, named subset) of its optional arguments x rotating '
                     'name/node/value/option/separator shapes; every rule x name shape x value shape; own-name, sibling-keyword and '
-                    'missing-keyword probes; multi-line netlists with anonymous names/directives/overrides; a malformed + fuzz stream; '
+                    'missing-keyword probes; multi-line netlists with anonymous names/directives/overrides; histories of add/remove with '
+                    'anonymous, X? and explicit <type>anon<k> names; a malformed + fuzz stream; '
                     'value_parser and Opts strings.  non-trivial = the real code either accepted the text or raised a parser error '
                     '(constructor errors are outside the model); distinct = distinct input texts')
 
@@ -889,7 +1046,7 @@ def run(tier='quick', replay=None):
         for ce in res.counterexamples:
             # keep the shortest failing input of each mechanism
             old = seen.get(ce['key'])
-            size = lambda x: len('\n'.join(x['case'].get('roundtrip') or [x['case'].get('vp', '')]))
+            size = lambda x: len('\n'.join(x['case'].get('roundtrip') or [y[1] for y in x['case'].get('roundtrip_hist', [])] or [x['case'].get('vp', '')]))
             if old is None or size(ce) < size(old):
                 seen[ce['key']] = ce
         known_keys = set(k['key'] for k in core.load_known() if k.get('property') == PID and k.get('status') == 'open')
@@ -906,11 +1063,12 @@ def run(tier='quick', replay=None):
                                'theorem': name, 'file': f, 'message': msg, 'found_input': False})
         # correspondence differences: when the round-trip oracle fails on the very same input, that concrete
         # input is the report; otherwise the difference itself is reported, once per input family
-        failing_inputs = set(json.dumps(ce['case'].get('roundtrip')) for ce in res.counterexamples)
+        failing_inputs = set(json.dumps(ce['case'].get('roundtrip')) for ce in res.counterexamples if ce['case'].get('roundtrip') is not None)
+        failing_inputs |= set(json.dumps(ce['case'].get('roundtrip_hist')) for ce in res.counterexamples if 'roundtrip_hist' in ce['case'])
         dk = {}
         for d in res.disagreements:
             c = d['case']
-            if json.dumps(c.get('lines')) in failing_inputs and 'inside the hypotheses' not in d['why']:
+            if (json.dumps(c.get('lines')) in failing_inputs or ('hist' in c and json.dumps(c['hist']) in failing_inputs)) and 'inside the hypotheses' not in d['why']:
                 continue
             k = 'correspondence:%s' % c.get('tag')
             dk.setdefault(k, d)
